@@ -1670,8 +1670,15 @@ int sslreadtimeout(SSL *ssl, unsigned char *buf, int num, int timeout, pthread_m
             pthread_mutex_unlock(lock);
 
             ndesc = poll(fds, 1, timeout ? timeout * 1000 : -1);
-            if (ndesc == 0)
-                return ndesc;
+            if (ndesc == 0) {
+                if (len == 0)
+                    return ndesc;
+                /* a stall inside a message cannot be resumed: give the connection up */
+                pthread_mutex_lock(lock);
+                SSL_set_shutdown(ssl, SSL_SENT_SHUTDOWN | SSL_RECEIVED_SHUTDOWN);
+                pthread_mutex_unlock(lock);
+                return -1;
+            }
 
             pthread_mutex_lock(lock);
             if (ndesc < 0 || fds[0].revents & (POLLERR | POLLHUP | POLLNVAL)) {
@@ -1835,7 +1842,13 @@ int radtlsget(SSL *ssl, int timeout, pthread_mutex_t *lock, uint8_t **buf) {
 
     cnt = sslreadtimeout(ssl, *buf + 4, len - 4, timeout, lock);
     if (cnt < 1) {
-        debug(DBG_DBG, cnt ? "radtlsget: connection lost" : "radtlsget: timeout");
+        debug(DBG_DBG, cnt ? "radtlsget: connection lost" : "radtlsget: timeout inside message, closing connection");
+        if (!cnt) {
+            /* the header is consumed: the stream cannot be resynchronised */
+            pthread_mutex_lock(lock);
+            SSL_set_shutdown(ssl, SSL_SENT_SHUTDOWN | SSL_RECEIVED_SHUTDOWN);
+            pthread_mutex_unlock(lock);
+        }
         free(*buf);
         *buf = NULL;
         return 0;
